@@ -808,7 +808,11 @@ fn soak_call(k: u64) -> (String, vsim::coresim::Call) {
     // `@typstyle off`, multi-line flavour) is rare, the "reader" twins are frequent, so that for
     // any recycling period P there are many pairs (k, k+P) of writer and reader with no other
     // writer in between.
-    const ORDINARY: &[&str] = &["#let x = 1\n", "#f(1,2)\n", "= T\n", "#import \"m.typ\": b, a\n", "$x$\n", "#table(columns: 2, [a], [b])\n", "#let y=(1,\n2)\n", "text\n", "#a.b.c(1)\n"];
+    const ORDINARY: &[&str] = &["#let x = 1\n", "#f(1,2)\n", "= T\n", "#import \"m.typ\": b, a\n", "$x$\n", "#table(columns: 2, [a], [b])\n", "#let y=(1,\n2)\n", "text\n", "#a.b.c(1)\n",
+        // one formatting pass is not a fixed point here (trailing blanks inside multi-line raw
+        // text near the width limit): whatever "re-checks" or "settles" results every so often
+        // returns something else than the plain call
+        "#figure(box(`xxxxxxxxxxxxxxxxxxxxxxxxxxxxxxxxxxxxxxxxxxxxxxxx                                                                      \nsecond`))\n"];
     const WRITERS: &[&str] = &["// @typstyle off\n#let   a=(1,2 ,3)\n", "#f(\n  1, /* @typstyle off */ (2,3))\n"];
     const READERS: &[&str] = &["// typstyle note\n#let   a=(1,2 ,3)\n", "#f(1, /* typstyle note */ (2,3))\n"];
     let mut st = k ^ 0x50A4;
